@@ -602,8 +602,22 @@ def mp_eval(g, nodes, pt, mp):
     return out
 
 
+def link_traces(tier):
+    """which exact function the accuracy clause is measured against: for exp / log / Jacobians the closed-cell identities are
+    C02-C05; for the mixed-invariant exponential (calculate_N / exp_mixed, consumed only by the strapdown propagation) it
+    is C08's flow / initial-value / zero-rate characterisation, re-run here so that a wrong coefficient in that consumer
+    is reported under C06 as well"""
+    from . import c08
+    out = []
+    for t in c08.traces(tier):
+        if t.id in ("C08.flow", "C08.init", "C08.zero-rate"):
+            t.id = f"C06.exact-function[{t.id}]"
+            out.append(t)
+    return out
+
+
 def traces(tier="quick"):
-    return closed_form_traces() + hint_traces()
+    return closed_form_traces() + hint_traces() + link_traces(tier)
 
 
 def jobs(tier="quick"):
